@@ -911,11 +911,11 @@ class Gen:
         return out
 
     # -- functions -------------------------------------------------------------------------------
-    def function(self, fn, protos=None):
+    def function(self, fn, protos=None, inline=False):
         d = self.d
         p = self.prog
         env = Env()
-        static = d.bool(0.3)
+        static = d.bool(0.3) or inline
         rk = d.weighted([(5, "int"), (3, "void"), (2, "ptr"), (1, "other")])
         stars = 0
         if rk == "int":
@@ -933,7 +933,7 @@ class Gen:
             nparams = d.weighted([(2, 0), (3, 1), (3, 2), (2, 3), (1, 4)])
             env = Env()
             par = self.params(env, nparams)
-            head = ([Lx("static", "kw"), SP()] if static else []) + self.type_lex(rtype) + [Lx("\t", "tab", ("func-tab",))] + \
+            head = ([Lx("static", "kw"), SP()] if static else []) + ([Lx("inline", "kw"), SP()] if inline else []) + self.type_lex(rtype) + [Lx("\t", "tab", ("func-tab",))] + \
                 [Lx("*", "op", ("ptr-func",)) for _ in range(stars)] + [Lx(name, "id", ("func-name",)), Lx("(", "par", ("params-open",))] + par + \
                 [Lx(")", "par", ("params-close",))]
             if vwidth("".join(x.t for x in head)) <= 80:
@@ -941,7 +941,8 @@ class Gen:
         else:
             env = Env()
             nparams = 0
-            head = self.type_lex(rtype) + [Lx("\t", "tab", ("func-tab",))] + [Lx("*", "op", ("ptr-func",)) for _ in range(stars)] + \
+            static = inline
+            head = ([Lx("static", "kw"), SP(), Lx("inline", "kw"), SP()] if inline else []) + self.type_lex(rtype) + [Lx("\t", "tab", ("func-tab",))] + [Lx("*", "op", ("ptr-func",)) for _ in range(stars)] + \
                 [Lx(name, "id", ("func-name",)), Lx("(", "par", ("params-open",)), Lx("void", "kw", ("void-params",)), Lx(")", "par", ("params-close",))]
         self.funcs_known.append((name, nparams))
         head_idx = len(p.lines)
@@ -1346,6 +1347,11 @@ def gen_h(d, opts=None, name=None, guard=True):
             g.emit_aligned(b, "typedef" if k == "alias" else "proto", col=col)
         else:
             b(col)
+    if d.bool(0.1) or "inline-function" in opts.get("force", ()):
+        # a function defined in the header (static inline helper)
+        g.blank()
+        g.function(0, inline=True)
+        g.tag("hitem:inline-function")
     g.blank()
     if guard:
         tail = []
